@@ -1,19 +1,35 @@
 /- GENERATED: instance obligations for one logic, discharged by kernel evaluation.
-   `X ⊆ known`: every failing row is a committed known finding (Ptx/Gen/Known.lean). -/
+   `S` = the logic with its DOCUMENTED tables (Ptx/Sem/Spec.lean); rules, closure, trunk and frames
+   are what the translator read off the code.  `X ⊆ known`: every failing row is a committed
+   known finding (Ptx/Gen/Known.lean, generated from known_findings.json). -/
 import Ptx.Gen.L_D
 import Ptx.Gen.Known
 import Ptx.Sem.Subset
+import Ptx.Props.C01
+import Ptx.Gen.L_CFOL
 namespace Ptx.Gen.Obl.D
 open Ptx
 
-theorem tables_total : Gen.D.tablesTotalB = true := by decide +kernel
-theorem rules_exact : subsetB Gen.D.badRules (Known.badRules "D") = true := by decide +kernel
-theorem rules_sound : subsetB Gen.D.unsoundRules (Known.unsoundRules "D") = true := by decide +kernel
-theorem rules_total : subsetB Gen.D.missingRules (Known.missingRules "D") = true := by decide +kernel
-theorem rules_local : Gen.D.nonLocalRules = [] := by decide +kernel
-theorem closure_total : Gen.D.closureTotalB = true := by decide +kernel
-theorem closure_exact : subsetB Gen.D.badClosure (Known.badClosure "D") = true := by decide +kernel
-theorem read_total : Gen.D.readTotalB = true := by decide +kernel
-theorem read_exact : subsetB Gen.D.badRead (Known.badRead "D") = true := by decide +kernel
+/-- a modal / first-order extension has exactly the truth-functional tables of its base (CFOL) -/
+theorem base_tables : Gen.D.tables.sameTF Gen.CFOL.tables = true := by decide +kernel
+theorem spec_defined : Gen.D.specDefinedB = true := by decide +kernel
+theorem tables_spec : subsetB Gen.D.tableDiff (Known.tableDiff "D") = true := by decide +kernel
+theorem defined_ops : Gen.D.tables.definedOpsBad = [] := by decide +kernel
+theorem tables_total : Gen.D.sem.tablesTotalB = true := by decide +kernel
+theorem rules_exact : subsetB Gen.D.sem.badRules (Known.badRules "D") = true := by decide +kernel
+theorem rules_sound : subsetB Gen.D.sem.unsoundRules (Known.unsoundRules "D") = true := by decide +kernel
+theorem rules_total : subsetB Gen.D.sem.missingRules (Known.missingRules "D") = true := by decide +kernel
+theorem rules_local : Gen.D.sem.nonLocalRules = [] := by decide +kernel
+theorem closure_total : Gen.D.sem.closureTotalB = true := by decide +kernel
+theorem closure_exact : subsetB Gen.D.sem.badClosure (Known.badClosure "D") = true := by decide +kernel
+theorem read_total : Gen.D.sem.readTotalB = true := by decide +kernel
+theorem read_exact : subsetB Gen.D.sem.badRead (Known.badRead "D") = true := by decide +kernel
+theorem sound_core : Gen.D.sem.soundCoreB = true := by decide +kernel
+
+/-- C01 for this logic: a closed tableau reached by any legal derivation has no countermodel. -/
+theorem c01_valid_sound (arg : Argument) (t : Tableau)
+    (hd : Deriv Gen.D.sem.soundPart.noQuantPart (trunk Gen.D.sem arg) t) (hclosed : t.allClosed = true)
+    (M : Struct) (hM : M.Interp Gen.D.sem) (e : Env M.D) (w0 : M.W) : ¬ Countermodel Gen.D.sem M e w0 arg :=
+  Props.C01.C01_valid_sound_partial Gen.D.sem sound_core arg t hd hclosed M hM e w0
 
 end Ptx.Gen.Obl.D
